@@ -1,0 +1,11 @@
+//go:build verif
+
+package velocity
+
+// Verification export hook for property C20 — re-exported through
+// pkg/edition/java/proxy/verif_export_c20.go (this package is internal). No logic.
+
+// VerifFindForwardingVersion = findForwardingVersion.
+func VerifFindForwardingVersion(requested int, player ConnectedPlayer) int {
+	return findForwardingVersion(requested, player)
+}
